@@ -718,3 +718,19 @@ func (w *World) LayoutVocabulary(r *oblig.Report, rule string) {
 		}
 	}
 }
+
+// RuleRefs returns the rule-invocation graph of the embedded parser automaton: rule → referenced rules.
+func (w *World) RuleRefs() (map[string][]string, error) {
+	g, err := w.view()
+	if err != nil {
+		return nil, err
+	}
+	out := map[string][]string{}
+	for ri, name := range g.rules {
+		out[name] = []string{}
+		for _, c := range g.refs[ri] {
+			out[name] = append(out[name], g.rules[c])
+		}
+	}
+	return out, nil
+}
